@@ -1671,35 +1671,28 @@ class PyCdlib:
 
         self._needs_reshuffle = False
 
-    def _add_child_to_dr(self, child):
-        # type: (dr.DirectoryRecord) -> int
+    def _add_child_to_dr(self, child, continuation=False):
+        # type: (dr.DirectoryRecord, bool) -> int
         """
         An internal method to add a child to a directory record, expanding the
         space in the Volume Descriptor(s) if necessary.
 
         Parameters:
          child - The new child.
+         continuation - Whether this child is a further extent of the very
+                        large file that was just added under the same name.
         Returns:
          The number of bytes to add for this directory record (this may be zero).
         """
         if child.parent is None:
             raise pycdlibexception.PyCdlibInternalError('Trying to add child without a parent')
 
-        try_long_entry = False
-        try:
-            ret = child.parent.add_child(child, self.logical_block_size)
-        except pycdlibexception.PyCdlibInvalidInput:
-            # dir_record.add_child() may throw a PyCdlibInvalidInput if it was
-            # given a duplicate child.  However, we allow duplicate children if
-            # and only the last child is the same; this represents a very large
-            # file.
-            if not child.is_dir():
-                try_long_entry = True
-            else:
-                raise
-
-        if try_long_entry:
-            ret = child.parent.add_child(child, self.logical_block_size, True)
+        # dir_record.add_child() throws a PyCdlibInvalidInput if it is given a
+        # duplicate child.  We allow a duplicate child if and only if it is a
+        # continuation of the previous child of the same name; this represents
+        # a very large file.
+        ret = child.parent.add_child(child, self.logical_block_size,
+                                     continuation and not child.is_dir())
 
         # The add_child() method returns True if the parent needs another extent
         # in order to fit the directory record for this child.
@@ -3079,6 +3072,7 @@ class PyCdlib:
         joliet_new_path = None
         rr_name = b''
         udf_new_path = None
+        continuation = False
         new_rec = None  # type: Optional[Union[dr.DirectoryRecord, udfmod.UDFFileEntry]]
         for key, value in kwargs.items():
             if key == 'iso_new_path':
@@ -3098,6 +3092,8 @@ class PyCdlib:
                 if value is not None:
                     num_new += 1
                     udf_new_path = utils.normpath(value)
+            elif key == 'continuation':
+                continuation = bool(value)
             else:
                 raise pycdlibexception.PyCdlibInvalidInput('Unknown keyword %s' % (key))
 
@@ -3134,7 +3130,7 @@ class PyCdlib:
                              vd.sequence_number(), rr, rr_name, xa, file_mode,
                              time.time())
 
-            num_bytes_to_add += self._add_child_to_dr(new_rec)
+            num_bytes_to_add += self._add_child_to_dr(new_rec, continuation)
             num_bytes_to_add += self._update_rr_ce_entry(new_rec)
         else:
             if self.udf_root is None:
@@ -3255,7 +3251,8 @@ class PyCdlib:
                                                                  fmode,
                                                                  eltorito_catalog,
                                                                  iso_new_path=iso_path,
-                                                                 rr_name=rr_name)
+                                                                 rr_name=rr_name,
+                                                                 continuation=offset > 0)
 
             if joliet_path:
                 # If this is a Joliet ISO, then we can re-use add_hard_link to do
@@ -3263,7 +3260,8 @@ class PyCdlib:
                 num_bytes_to_add += self._add_hard_link_to_inode(ino, thislen,
                                                                  fmode,
                                                                  eltorito_catalog,
-                                                                 joliet_new_path=joliet_path)
+                                                                 joliet_new_path=joliet_path,
+                                                                 continuation=offset > 0)
 
             # This goes after the hard link so we only track the new Inode if
             # everything above succeeds
@@ -4614,6 +4612,9 @@ class PyCdlib:
                     num_old += 1
                     udf_old_path = utils.normpath(value)
                 keys_to_remove.append(key)
+            elif key == 'continuation':
+                # Internal to _add_fp(); not part of the public API.
+                raise pycdlibexception.PyCdlibInvalidInput('Unknown keyword %s' % (key))
 
         if num_old != 1:
             raise pycdlibexception.PyCdlibInvalidInput('Exactly one old path must be specified')
